@@ -460,6 +460,7 @@ def validate_traces(ctx, traces, what, cfg="ParseCacheTrace.cfg"):
 # --------------------------------------------------------------------------- main
 def run(ctx):
     thorough = ctx.tier == "thorough"
+    par.start()      # fork the replay workers while this process is still small
     rng = random.Random(ctx.seed)
     quiet()
     # 1. TLC: intended configs must satisfy the property; their TR-logs are the replay corpus
